@@ -117,7 +117,12 @@ def check(prop, tier, seed, t0):
         if c.assumed:
             continue        # assumed contracts are used at call sites only; their bodies get bounded conformance checks
         fnd = [f for f in known['findings'] if f.get('target') == c.target]
-        tasks.append(dict(kind='fn', name=c.target, timeout=timeout, findings=fnd))
+        if c.shards > 1:
+            # a function with many obligations: every shard regenerates the VCs and discharges its share
+            for k in range(c.shards):
+                tasks.append(dict(kind='fn', name=c.target, timeout=timeout, findings=fnd, shard=(k, c.shards)))
+        else:
+            tasks.append(dict(kind='fn', name=c.target, timeout=timeout, findings=fnd))
     for l in ls:
         tasks.append(dict(kind='lemma', name=l.name, timeout=timeout))
     results = run.run_tasks(tasks)
@@ -144,13 +149,14 @@ def check(prop, tier, seed, t0):
         if res['status'] != 'ok':
             undecided.append('%s %s: %s (%s)' % (res['kind'], res['name'], res['status'], res['detail']))
             continue
-        (functions if res['kind'] != 'lemma' else lemmas).append(res['name'])
+        if res['name'] not in (functions if res['kind'] != 'lemma' else lemmas):
+            (functions if res['kind'] != 'lemma' else lemmas).append(res['name'])
         inlined |= set(res.get('inlined', []))
         used |= set(res.get('used_contracts', []))
         lib_used |= set(res.get('lib_used', []))
         facts |= set(res.get('trusted_facts', []))
         mine = [o for o in res['obligations'] if prop in o['props']]
-        if not mine and res['kind'] != 'engine':
+        if not mine and res['kind'] != 'engine' and not res.get('shard'):
             undecided.append('%s %s generated no obligation for %s' % (res['kind'], res['name'], prop))
         for o in mine:
             n_ob += 1
@@ -209,7 +215,10 @@ def check(prop, tier, seed, t0):
         confirmed = False
         if res['kind'] == 'fn':
             try:
-                r = native.replay_function(res['name'], o['model']) if o.get('model') and native.model_is_native(o['model']) else dict(confirmed=False)
+                try:
+                    r = native.replay_function(res['name'], o['model']) if o.get('model') else dict(confirmed=False)
+                except Exception as ex:
+                    r = dict(confirmed=False, detail='model not replayable natively: %s' % str(ex)[:200])
                 if not r['confirmed']:
                     # the counter-model is abstract (or not reproducible in floats): search the function's bounded pool
                     from . import pools
